@@ -519,6 +519,9 @@ func main() {
 			common.Machinery("bad case: %v", err)
 		}
 		ok, _, sh, d := checkPair(c.A, c.B)
+		if ok {
+			return true, "UUID equality agrees with structural equality for " + c.A.Short() + " vs " + c.B.Short()
+		}
 		return ok, sh + ": " + d
 	})
 	r.Replayer("defined", func(raw json.RawMessage) (bool, string) {
@@ -527,6 +530,9 @@ func main() {
 			common.Machinery("bad case: %v", err)
 		}
 		ok, _, sh, d := checkDefined(c.Value)
+		if ok {
+			return true, "UUID defined and identical on 3 calls for " + c.Value.Short()
+		}
 		return ok, sh + ": " + d
 	})
 	r.Replayer("process", func(raw json.RawMessage) (bool, string) {
@@ -637,7 +643,14 @@ func main() {
 				return
 			}
 			local, coll := int64(0), int64(0)
-			for j := 0; j < n; j++ {
+			j := 0
+			defer func() {
+				// a panic in Triple.Equal is a failure of the pair, not of the check
+				if rec := recover(); rec != nil {
+					r.Fail(common.Failure{Check: "pair", Class: pairClass(u.specs[f][i], u.specs[f][j]), Shape: "panic-in-triple-equal", Case: paircase{u.specs[f][i], u.specs[f][j]}, Detail: fmt.Sprint(rec)})
+				}
+			}()
+			for ; j < n; j++ {
 				local++
 				ux, uy := tab.uuid[f][i], tab.uuid[f][j]
 				if ux == nil || uy == nil {
